@@ -7,7 +7,7 @@ from . import backendlib as B
 
 PID = 'C13'
 PINS = C.load_pins('C13')
-PROOF_FILES = ['Proofs/BackendProofs.v', 'Props/C13.v']
+PROOF_FILES = ['Proofs/BackendProofs.v', 'Proofs/MultiDocProofs.v', 'Props/C13.v']
 OUTCOMES = [{'kind': 'versions', 'vs': ['1.0.0', '2.0.0']}, {'kind': 'not_found'}, {'kind': 'invalid'}]
 
 
